@@ -371,3 +371,55 @@ func init() {
 		delegateSiblingRule(c, "X.delegate", []string{"NewColumnIndexer", "NewColumnBuffer", "NewDictionary", "NewPage"}, 1)
 	}})
 }
+
+func init() {
+	register(&Property{ID: "X-accum", NeedSSA: true, Decided: "dump", NotDecided: "-", Run: func(c *Ctx) {
+		p := c.P
+		for _, fn := range p.ModuleSSAFuncs() {
+			if fn.Origin() != nil || fn.Blocks == nil {
+				continue
+			}
+			top := fn
+			for top.Parent() != nil {
+				top = top.Parent()
+			}
+			allCalls(fn, false, func(_ *ssa.Function, call ssa.CallInstruction) {
+				sc := call.Common().StaticCallee()
+				if sc == nil || originFn(sc) != originFn(top) {
+					return
+				}
+				for i, a := range call.Common().Args {
+					if i >= len(top.Params) {
+						break
+					}
+					par := top.Params[i]
+					self, derived := false, false
+					for _, o := range Origins(a, OriginOpts{ThroughBinOp: true, ThroughField: true}) {
+						if (o.Kind == OrgParam && o.Val == ssa.Value(par)) || (o.Kind == OrgFreeVar && o.Val.Name() == par.Name()) {
+							derived = true
+						}
+					}
+					if a == ssa.Value(par) {
+						self = true
+					}
+					if fv, ok := a.(*ssa.FreeVar); ok && fv.Name() == par.Name() {
+						self = true
+					}
+					kind := "unrelated"
+					if self {
+						kind = "same"
+					} else if derived {
+						kind = "derived"
+					}
+					c.Note("%s param %s (%s): %s at %s", FuncKey(top), par.Name(), par.Type(), kind, p.Pos(call.Pos()))
+				}
+			})
+		}
+	}})
+}
+
+func init() {
+	register(&Property{ID: "X-accumrule", NeedSSA: true, Decided: "dump", NotDecided: "-", Run: func(c *Ctx) {
+		runAccumRule(c, "X.accum", func(fn *ssa.Function) bool { return inModule(fn) })
+	}})
+}
